@@ -773,6 +773,7 @@ def lot_vectors_sparse(
     result = saved_blocks @ components.T
     del saved_blocks
     os.remove(memmap_filename)
+    os.rmdir(os.path.dirname(memmap_filename))
 
     return result, components
 
@@ -952,6 +953,7 @@ def lot_vectors_dense(
     result = saved_blocks @ components.T
     del saved_blocks
     os.remove(memmap_filename)
+    os.rmdir(os.path.dirname(memmap_filename))
 
     return result, components
 
@@ -1167,6 +1169,7 @@ def lot_vectors_dense_generator(
     result = saved_blocks @ components.T
     del saved_blocks
     os.remove(memmap_filename)
+    os.rmdir(os.path.dirname(memmap_filename))
 
     return result, components
 
@@ -1367,6 +1370,7 @@ def sinkhorn_vectors_sparse(
     result = saved_blocks @ components.T
     del saved_blocks
     os.remove(memmap_filename)
+    os.rmdir(os.path.dirname(memmap_filename))
 
     return result, components
 
